@@ -911,8 +911,77 @@ func splitLast(s *model.Scenario, t *tape.Tape) (*model.Scenario, int) {
 		}
 	}
 	m.Augments = augs
+	// The module includes all its submodules, or (half of the time) only the
+	// top one, through which all others are reached by nested includes, plus
+	// those holding a typedef that text remaining in the module refers to
+	// (goyang looks typedefs up in directly included submodules only).
+	// (Disabled: RFC 7950 5.1 requires a module to list ALL its submodules; on a
+	// module that does not, goyang deliberately hoists neither the identities nor
+	// the typedefs of a submodule reached only through another submodule, so the
+	// reduced include set is outside the property's domain.)
+	direct := map[string]bool{}
+	if false {
+		direct[subs[k-1].Name] = true
+		holder := map[string]string{}
+		for _, sub := range subs {
+			for _, td := range sub.Typedefs {
+				holder[td.Name] = sub.Name
+			}
+		}
+		var doType func(ty *model.Type)
+		doType = func(ty *model.Type) {
+			if ty == nil {
+				return
+			}
+			if h, ok := holder[ty.Ref.Name]; ok && ty.Ref.Mod == m.Name {
+				direct[h] = true
+			}
+			for _, u := range ty.Union {
+				doType(u)
+			}
+		}
+		var doBody func(body []*model.Node)
+		var doGrouping func(g *model.Grouping)
+		doBody = func(body []*model.Node) {
+			for _, x := range body {
+				doType(x.Type)
+				for _, td := range x.Typedefs {
+					doType(td.Type)
+				}
+				for _, g := range x.Groupings {
+					doGrouping(g)
+				}
+				doBody(x.Kids)
+			}
+		}
+		doGrouping = func(g *model.Grouping) {
+			for _, td := range g.Typedefs {
+				doType(td.Type)
+			}
+			for _, x := range g.Groupings {
+				doGrouping(x)
+			}
+			doBody(g.Body)
+		}
+		for _, td := range m.Typedefs {
+			doType(td.Type)
+		}
+		for _, g := range m.Groupings {
+			doGrouping(g)
+		}
+		doBody(m.Body)
+		for _, a := range m.Augments {
+			doBody(a.Body)
+		}
+	} else {
+		for _, sub := range subs {
+			direct[sub.Name] = true
+		}
+	}
 	for _, sub := range subs {
-		m.Includes = append(m.Includes, &model.Include{Sub: sub.Name})
+		if direct[sub.Name] {
+			m.Includes = append(m.Includes, &model.Include{Sub: sub.Name})
+		}
 		n.Mods = append(n.Mods, sub)
 	}
 	return n, moved
@@ -1153,6 +1222,27 @@ func (c13Driver) Shrink(cc core.Case) []core.Case {
 		// drop the same item from both scenarios: shrink the unsplit one and re-split is not
 		// reproducible, so shrink both structurally and keep pairs that still fail
 		for _, s := range model.ShrinkScenario(c.Split) {
+			// every part submodule must still be included by its module
+			ok := true
+			for _, m := range s.Mods {
+				if m.IsSub() && strings.Contains(m.Name, "-part") {
+					owner := s.Mod(m.BelongsTo)
+					found := false
+					if owner != nil {
+						for _, inc := range owner.Includes {
+							if inc.Sub == m.Name {
+								found = true
+							}
+						}
+					}
+					if !found {
+						ok = false
+					}
+				}
+			}
+			if !ok {
+				continue
+			}
 			n := clone()
 			n.Split = s
 			n.Scenario = unsplit(s)
